@@ -263,10 +263,10 @@ def handle : Handler
       some (verdict [("closed-form", Spec.maxDiff n k want (mget emb), tol * scale)]
         [("shape", emb.length == n && emb.all (·.length == k))])) "bad-args"
   -- ---------------------------------------------------------------- LouvainEmbedding
-  | "c09.louvain", [nr, ncol, a, ln, lr, lc, w] => some <| Option.getD (do
+  | "c09.louvain", [nr, ncol, a, fb, ln, lr, lc, w] => some <| Option.getD (do
       let nr ← nr.toNat?; let ncol ← ncol.toNat?; let a ← mat? a
-      let ln ← natList? ln; let lr ← natList? lr; let lc ← natList? lc; let w ← which? w
-      match louvainEmbFit nr ncol a ln lr lc w with
+      let fb ← bool? fb; let ln ← natList? ln; let lr ← natList? lr; let lc ← natList? lc; let w ← which? w
+      match louvainEmbFit nr ncol a fb ln lr lc w with
       | .error e => some (showErr e)
       | .ok o => some s!"ok lab={showInts o.labels} emb={showMat o.embedding} embcol={showOptMat o.embeddingCol}") "bad-args"
   | "c09.spec_louvain", [nr, ncol, a, lab, emb, tol] => some <| Option.getD (do
